@@ -2,7 +2,7 @@
 from itertools import permutations
 
 from .extract import AnalysisBroken
-from .facts import as_assign, estr, unwrap, walk
+from .facts import as_assign, estr, need_names, unwrap, walk
 from .readers import cmp_parts, strip_casts
 from .witness import compile_witness
 from . import c11
@@ -142,6 +142,7 @@ def run_c15(ck, fb, fbd):
         ps = [p["t"] for p in f.d["params"]]
         if len(ps) != 2:
             continue
+        need_names(f, ["vhs"], None, "C15.perm")
         halfedge_overload = "HEH" in ps[1]
         for idxs, b, ln in init_lists(f, "vhs"):
             if not all(isinstance(v, int) for v in idxs):
@@ -189,6 +190,7 @@ def run_c15(ck, fb, fbd):
         if not f:
             raise AnalysisBroken("anchor vanished: TetrahedralMeshTopologyKernel::" + name)
         f = f[0]
+        need_names(f, ["vertices"], None, "C15.perm")
         lists = [ix for ix, b, ln in init_lists(f, "vertices")]
         pos = []
         good = True
@@ -403,6 +405,8 @@ def run_c16(ck, fb, fbd):
     (ck.ok if (not bad and len(table) == 24) else lambda r, w, t: ck.violate(r, w, t, "C16.tables:orthogonal"))("C16.tables", g.where, "orthogonal_orientation: %d entries; %s" % (len(table), "all laws hold" if not bad else "; ".join(bad[:4])))
     # order tables
     arrays = {}
+    for h in [x for x in fb.by_cls.get(HEX, []) if x.has_cfg and x.name == "add_cell" and "HFH" in x.d["params"][0]["t"]]:
+        need_names(h, ["orderTop"], None, "C16.tables")
     for h in [x for x in fb.by_cls.get(HEX, []) if x.has_cfg and x.name in ("add_cell", "check_halfface_ordering")]:
         for b, i, d in h.nodes(("decl",)):
             for v in d["vars"]:
@@ -416,6 +420,7 @@ def run_c16(ck, fb, fbd):
     if not ch:
         raise AnalysisBroken("anchor vanished: check_halfface_ordering")
     ch = ch[0]
+    need_names(ch, ["offsetTop", "offsetBot", "orderTop", "orderBot", "_hfs"], None, "C16.tables")
     offs = {"offsetTop": {}, "offsetBot": {}}
     for b, i, x in ch.tops():
         a = as_assign(x)
@@ -442,6 +447,7 @@ def run_c16(ck, fb, fbd):
     if not cs:
         raise AnalysisBroken("anchor vanished: CellSheetCellIter constructor")
     cs = cs[0]
+    need_names(cs, ["_orthDir"], None, "C16.tables")
     pushes = [(b, x) for b, i, x in cs.nodes(("call",)) if x.get("pn", "").split("::")[-1] == "push_back"]
     ok = False
     for b, x in pushes:
